@@ -209,6 +209,17 @@ XPathProcessorImpl::initMatchPattern(
 
 
 
+// Digits ::= [0-9]+ (XPath 1.0, production 31): the digits of a number are
+// the ASCII digits, not the XML 1.0 "Digit" class of XalanXMLChar::isDigit()
+// (which is what a name may contain).
+static inline bool
+isNumberDigit(XalanDOMChar  c)
+{
+    return c >= XalanUnicode::charDigit_0 && c <= XalanUnicode::charDigit_9;
+}
+
+
+
 void
 XPathProcessorImpl::tokenize(const XalanDOMString&  pat)
 {
@@ -450,7 +461,7 @@ XPathProcessorImpl::tokenize(const XalanDOMString&  pat)
                 if(XalanDOMString::npos == startSubstring &&
                    c == XalanUnicode::charFullStop &&
                    (i + 1 >= nChars ||
-                    XalanXMLChar::isDigit(pat[i + 1]) == false))
+                    isNumberDigit(pat[i + 1]) == false))
                 {
                     // '.' and '..' are tokens of their own (the abbreviated
                     // steps): a '.' that starts neither a number nor sits
@@ -477,10 +488,10 @@ XPathProcessorImpl::tokenize(const XalanDOMString&  pat)
                     // A number is Digits ('.' Digits?)? or '.' Digits.  It
                     // ends at the first character that cannot continue it,
                     // so ".5." and ".5-" are not single (number) tokens.
-                    if (XalanXMLChar::isDigit(c) == true ||
+                    if (isNumberDigit(c) == true ||
                         (c == XalanUnicode::charFullStop &&
                          i + 1 < nChars &&
-                         XalanXMLChar::isDigit(pat[i + 1]) == true))
+                         isNumberDigit(pat[i + 1]) == true))
                     {
                         bool    gotFullStop = c == XalanUnicode::charFullStop;
 
@@ -503,7 +514,7 @@ XPathProcessorImpl::tokenize(const XalanDOMString&  pat)
                                     break;
                                 }
                             }
-                            else if (XalanXMLChar::isDigit(currentChar) == false)
+                            else if (isNumberDigit(currentChar) == false)
                             {
                                 --i;
 
@@ -1627,8 +1638,8 @@ XPathProcessorImpl::PrimaryExpr()
     }
     else if((tokenIs(XalanUnicode::charFullStop) == true &&
                 m_token.length() > 1 &&
-                XalanXMLChar::isDigit(m_token[1]) == true) ||
-                XalanXMLChar::isDigit(m_tokenChar) == true)
+                isNumberDigit(m_token[1]) == true) ||
+                isNumberDigit(m_tokenChar) == true)
     {
         m_expression->appendOpCode(XPathExpression::eOP_NUMBERLIT);
 
